@@ -53,9 +53,7 @@ def gen_case(g, cid):
     pc.bare = pc.kind == "struct" and cid % 5 == 2
     if pc.bare:
         pc.from_update = pc.into_update = False
-        for d in pc.instrs:
-            if d["tail"] == "return" and not all(k.startswith("from") for k in kinds_of(d["name"])):
-                d["tail"] = None
+        # `return expr` stays allowed on every kind: it replaces the whole body, the post-init statements included
     return pc
 
 
